@@ -26,6 +26,14 @@ Modelling decisions (each one mirrors the Go runtime, see notes/C12.md):
   * `shard` field: `opened` (handle open), `closed` (handle closed, pointer not yet nil), `nil`.
   * file system: `dirs` = existing shard directories, `opens d` = number of open bbolt handles on
     the database file of directory `d`.
+  * loading can FAIL: `bad d` = the database file of directory `d` cannot be opened (a torn /
+    half-transferred / garbage `sharddb.bbolt`: `shard.NewShard` returns an error), `blocked d` = a
+    non-directory sits at the path of `d` (`os.MkdirAll` returns an error).  Both are set by the
+    environment actions `Act.corrupt` / `Act.block` at any time (a database file is only overwritten
+    while no handle is open on it); `os.RemoveAll` of a deletion removes a bad file with its
+    directory, and `Act.repair` makes the failure transient (the file becomes openable again).  A failed load returns through loadShard's deferred `shardLock.Unlock()` (pc
+    `rqLoadErr`, parked at the deferred yield point `load.unlockStore`) and DoWithShard returns the
+    error without touching `ls.mu`.
   * `Variant.pinned` is the lock order of the pinned tree (cleanupRoutine keeps ls.mu, by `defer`,
     while it takes shardLock and deletes the map entry unconditionally); `Variant.repaired`
     releases ls.mu first and deletes the entry only if it is still its own.
@@ -75,6 +83,7 @@ inductive PC
   | rqPut (d : Dir) (o : Oid)
   | rqSpawn (o : Oid)
   | rqUnlockStore (o : Oid)
+  | rqLoadErr                      -- loadShard failed (mkdir / open): the deferred unlock is still to run
   | rqRLock (o : Oid)
   | rqRWait (o : Oid)
   | rqNilCheck (o : Oid)
@@ -119,15 +128,27 @@ structure St where
   lock : Option Tid
   dirs : List Dir
   opens : Dir → Nat
+  /-- the database file of the directory cannot be opened (garbage / torn `sharddb.bbolt`) -/
+  bad : Dir → Bool
+  /-- a non-directory sits at the path of the shard directory: `os.MkdirAll` fails -/
+  blocked : Dir → Bool
 
 def St.init (dirs : List Dir) : St :=
-  { thr := [], objs := [], store := fun _ => none, lock := none, dirs := dirs, opens := fun _ => 0 }
+  { thr := [], objs := [], store := fun _ => none, lock := none, dirs := dirs, opens := fun _ => 0,
+    bad := fun _ => false, blocked := fun _ => false }
 
 inductive Act
   | newReq (d : Dir)
   | newDel (c : Nat)
   | run (t : Tid)
   | fire (t : Tid)
+  /-- environment: the database file of `d` becomes unopenable (its directory exists afterwards) -/
+  | corrupt (d : Dir)
+  /-- environment: a regular file appears at the path of the (not yet existing) directory `d` -/
+  | block (d : Dir)
+  /-- environment: the unopenable database file of `d` goes away (a torn transfer is completed /
+  the garbage is removed): the failure was transient, the next load must succeed -/
+  | repair (d : Dir)
   deriving DecidableEq, Repr
 
 def upd {β : Type} (f : Dir → β) (d : Dir) (b : β) : Dir → β := fun x => if x = d then b else f x
@@ -164,9 +185,11 @@ def stepPc (v : Variant) (s : St) (t : Tid) : PC → Option St
           else some (s.setPc t (.rqUnlockStore o))
       | none => none
   | .rqMkdir d =>
-      some ({ s with dirs := if d ∈ s.dirs then s.dirs else d :: s.dirs }.setPc t (.rqOpen d))
+      if s.blocked d = true then some (s.setPc t .rqLoadErr)      -- "could not create shard directory"
+      else some ({ s with dirs := if d ∈ s.dirs then s.dirs else d :: s.dirs }.setPc t (.rqOpen d))
   | .rqOpen d =>
-      some ({ s with opens := upd s.opens d (s.opens d + 1), objs := s.objs ++ [Obj.fresh d] }.setPc t (.rqPut d s.objs.length))
+      if s.bad d = true then some (s.setPc t .rqLoadErr)          -- "could not open shard": nothing allocated, nothing stored
+      else some ({ s with opens := upd s.opens d (s.opens d + 1), objs := s.objs ++ [Obj.fresh d] }.setPc t (.rqPut d s.objs.length))
   | .rqPut d o =>
       some ({ s with store := upd s.store d (some o) }.setPc t (.rqSpawn o))
   | .rqSpawn o =>
@@ -175,6 +198,9 @@ def stepPc (v : Variant) (s : St) (t : Tid) : PC → Option St
       | none => none
   | .rqUnlockStore o =>
       some ({ s with lock := none }.setPc t (.rqRLock o))
+  | .rqLoadErr =>
+      -- deferred `sm.shardLock.Unlock()`, then DoWithShard returns "could not load shard"
+      some ({ s with lock := none }.setPc t (.done .err))
   | .rqRLock o =>
       match s.objs[o]? with
       | some ob =>
@@ -301,8 +327,8 @@ def stepPc (v : Variant) (s : St) (t : Tid) : PC → Option St
   | .dlMapDel d r => some ({ s with store := upd s.store d none }.setPc t (.dlRemove d r))
   | .dlRemove d r =>
       match r with
-      | [] => some ({ s with dirs := s.dirs.filter (fun x => x != d) }.setPc t .dlUnlockStore)
-      | d' :: r' => some ({ s with dirs := s.dirs.filter (fun x => x != d) }.setPc t (.dlLookup d' r'))
+      | [] => some ({ s with dirs := s.dirs.filter (fun x => x != d), bad := upd s.bad d false }.setPc t .dlUnlockStore)
+      | d' :: r' => some ({ s with dirs := s.dirs.filter (fun x => x != d), bad := upd s.bad d false }.setPc t (.dlLookup d' r'))
   | .dlUnlockStore => some ({ s with lock := none }.setPc t (.done .ok))
 
 def step (v : Variant) (s : St) : Act → Option St
@@ -320,6 +346,14 @@ def step (v : Variant) (s : St) : Act → Option St
               if ob.sel = true ∧ ob.msg = none then some ((s.setObj o { ob with sel := false }).setPc t (.clLockW o)) else none
           | none => none
       | _ => none
+  | .corrupt d =>
+      if s.opens d = 0 ∧ s.blocked d = false then
+        some { s with dirs := if d ∈ s.dirs then s.dirs else d :: s.dirs, bad := upd s.bad d true }
+      else none
+  | .block d =>
+      if d ∈ s.dirs then none else some { s with blocked := upd s.blocked d true }
+  | .repair d =>
+      if s.bad d = true then some { s with bad := upd s.bad d false } else none
 
 inductive Reachable (v : Variant) : St → Prop
   | init (dirs : List Dir) : Reachable v (St.init dirs)
@@ -368,6 +402,7 @@ def PC.point (s : St) (t : Tid) : PC → String
   | .rqPut _ _ => "at load.put"
   | .rqSpawn _ => "at load.spawn"
   | .rqUnlockStore _ => "at load.unlockStore"
+  | .rqLoadErr => "at load.unlockStore"
   | .rqRLock _ => "at dws.rlock"
   | .rqRWait o => match s.objs[o]? with
       | some ob => if t ∈ ob.readers then "at dws.nilcheck" else "blocked rlock"
